@@ -265,6 +265,39 @@ macro_route! {
     mac_i64: i64, u64;
 }
 
+/// `konst::for_range!` (the plain counting loop macro): same values as `for x in a..b`, incl. inverted ranges
+macro_rules! for_range_route {
+    ($($m:ident: $t:ty, $u:ty);* $(;)?) => { $(
+        pub mod $m {
+            use super::*;
+            fn for_range() {
+                let a: $t = kani::any();
+                let b: $t = kani::any();
+                kani::assume(a >= b || (b as $u).wrapping_sub(a as $u) <= 4);
+                let mut s = a..b;
+                let mut n = 0usize;
+                konst::for_range! {x in a..b =>
+                    assert!(Some(x) == s.next());
+                    n += 1;
+                    assert!(n <= 4);
+                }
+                assert!(s.next().is_none());
+                must_reach!(n == 4 && b == <$t>::MAX, "4 items up to MAX");
+                must_reach!(a > b, "inverted range: no iteration");
+                must_reach!(a == b, "empty range");
+            }
+            tiers! { for_range: unwind(7, 7), for_range(), for_range(),
+                calls("konst::for_range!"), bounds("every (start,end) pair with <=4 items or inverted", "same") }
+        }
+    )* };
+}
+for_range_route! {
+    fr_u8: u8, u8;
+    fr_i8: i8, u8;
+    fr_usize: usize, usize;
+    fr_i32: i32, u32;
+}
+
 // ------------------------------------------------------------------ u8/i8 to exhaustion (thorough)
 
 #[cfg(all(kani, feature = "thorough"))]
